@@ -180,10 +180,10 @@ def run(c):
          must_cover=['EvalCond', 'Reserve', 'Collect'])
     r = c.mc('MC_Limiter', c04.mc_cfg('MCConfigsCond', threads=1, maxnow=4, hits=4), label='conditions, graph',
              dump=True, coverage=False)
-    c04.replay_sequential(c, r.graph, 150 if quick else 2000, rng, wd)
+    c04.replay_sequential(c, r.graph, 150 if quick else 10000, rng, wd)
     cfgs = sorted((to_json(r.graph.states[s]['cfg']) for s in r.graph.init), key=str)
     traces, meta = [], []
-    for i in range(15 if quick else 150):
+    for i in range(15 if quick else 1000):
         cfg = rng.choice([x for x in cfgs if x['cm'] == 'expr'])
         tr, esc = c04.history_trace(rng, cfg, wd, rng.choice([10, 40]), 5)
         traces.append(tr)
